@@ -405,7 +405,42 @@ def displaced_outcomes(prog, b, ins, stop_calls):
         succ.setdefault(a, []).append((c, l))
     out = {"push": set(), "silent": set(), "panic": set()}
     start = [c for (c, l) in succ.get(ins.bb, [])]
-    stack = [(s, frozenset(ALL_STATUS), frozenset([ins.bb])) for s in start]
+    stack = [(s, frozenset(ALL_STATUS), frozenset([ins.bb]), frozenset()) for s in start]
+
+    def step_env(bb, env):
+        """constants held by projection-free locals after the statements of bb, on this path (a predicate helper's `false` / `true`
+        results joined into one local and tested afterwards)"""
+        e = dict(env)
+        for st in b.blocks[bb]["stmts"]:
+            if st["k"] != "assign" or st["dst"]["p"]:
+                continue
+            l, rv = st["dst"]["l"], st["rv"]
+            v = None
+            if rv["k"] == "use":
+                a = rv["a"]
+                if "k" in a and a["k"].get("int") is not None:
+                    try:
+                        v = int(a["k"]["int"])
+                    except (TypeError, ValueError):
+                        v = None
+                elif "k" in a and a["k"].get("s") in ("true", "false"):
+                    v = 1 if a["k"]["s"] == "true" else 0
+                else:
+                    pl = a.get("c") or a.get("m")
+                    if pl is not None and not pl["p"] and pl["l"] in e:
+                        v = e[pl["l"]]
+            elif rv["k"] == "un" and rv.get("op") == "Not":
+                pl = rv["a"].get("c") or rv["a"].get("m")
+                if pl is not None and not pl["p"] and pl["l"] in e and e[pl["l"]] in (0, 1):
+                    v = 1 - e[pl["l"]]
+            if v is None:
+                e.pop(l, None)
+            else:
+                e[l] = v
+        t = b.blocks[bb]["term"]
+        if t["k"] == "call" and not t["dst"]["p"]:
+            e.pop(t["dst"]["l"], None)
+        return e
     pushes = set(c.bb for c in stop_calls)
     # a later insert that puts the displaced value back ends the case silently; an insert of a NEW status is just a step on the way
     inserts = set()
@@ -418,7 +453,7 @@ def displaced_outcomes(prog, b, ins, stop_calls):
                 inserts.add(c.bb)
     n = 0
     while stack:
-        bb, cases, seen = stack.pop()
+        bb, cases, seen, env = stack.pop()
         n += 1
         if n > 20000:
             return None
@@ -434,9 +469,16 @@ def displaced_outcomes(prog, b, ins, stop_calls):
         if not nxt:
             out["panic"] |= cases
             continue
+        env2 = step_env(bb, env)
+        fenv = frozenset(env2.items())
         if t["k"] == "switch":
             sa = G.switch_atoms(b, bb, prog)
+            dpl = t["d"].get("c") or t["d"].get("m")
+            known = env2.get(dpl["l"]) if dpl is not None and not dpl["p"] else None
+            arms = [int(v) for v, _ in t["arms"]]
             for (c, l) in nxt:
+                if known is not None and ((l[1] == "else" and known in arms) or (l[1] != "else" and l[1] != known)):
+                    continue        # this path fixed the tested local to a constant: the other edges are not its continuation
                 cs = set(cases)
                 for a in sa.get(l[1], []):
                     if a[0] == "is_some" and is_old(a[1][0]):
@@ -444,10 +486,10 @@ def displaced_outcomes(prog, b, ins, stop_calls):
                     elif a[0] == "variant" and is_old(a[1][0]):
                         cs &= set(a[1][1])
                 if cs:
-                    stack.append((c, frozenset(cs), seen | {bb}))
+                    stack.append((c, frozenset(cs), seen | {bb}, fenv))
         else:
             for (c, l) in nxt:
-                stack.append((c, cases, seen | {bb}))
+                stack.append((c, cases, seen | {bb}, fenv))
     return out
 
 
